@@ -84,6 +84,7 @@ def vec_ops_vs_twin(rng, n):
             x = jnp.array([[dy(rng), dy(rng)] for _ in range(B)])
             tag = f"{'with' if has_t else 'without'} time, {B} point(s) per axis"
             for nm, fw_fun, rv_fun in (
+                    ("scalar Laplacian of a two-output network (component 0)", lambda: O._laplacian_fwd(t, x, s, Ps)[..., None], lambda tt, xx: jnp.atleast_1d(O._laplacian_rev(tt, xx, tw, Pt))),
                     ("vector Laplacian (component count given)", lambda: O._vectorial_laplacian(t, x, s, Ps, u_vec_ndim=2), lambda tt, xx: O._vectorial_laplacian(tt, xx, tw, Pt, u_vec_ndim=2)),
                     ("vector Laplacian (default component count)", lambda: O._vectorial_laplacian(t, x, s, Ps), lambda tt, xx: O._vectorial_laplacian(tt, xx, tw, Pt)),
                     ("advection (u.grad)u", lambda: O._u_dot_nabla_times_u_fwd(t, x, s, Ps), lambda tt, xx: O._u_dot_nabla_times_u_rev(tt, xx, tw, Pt))):
@@ -101,6 +102,16 @@ def vec_ops_vs_twin(rng, n):
     return fails
 
 
+def correlated_ou():
+    jax, jnp, np, eqx, jinns = jx()
+
+    class CorrelatedOU(jinns.loss.OU_FPENonStatioLoss2D):
+        def sigma_mat(self, t, x, eq_params):
+            s = eq_params["sigma"]
+            return jnp.array([[s[0], 0.0], [0.75 * s[1], s[1]]])
+    return CorrelatedOU
+
+
 def impl_vs_impl(rng, n, residuals_only=False, terms_only=False):
     """separable vs pointwise on the built-in residuals and on the loss terms (tolerance 1e-9); the number of
     points per axis is 1, 2 or 3 (fewer, as many, more than the space dimension)"""
@@ -116,7 +127,9 @@ def impl_vs_impl(rng, n, residuals_only=False, terms_only=False):
         for name, mk, dx, eqp in [] if terms_only else [
                 ("BurgerEquation", lambda: jinns.loss.BurgerEquation(Tmax=2.0), 1, {"nu": jnp.array(0.25)}),
                 ("FisherKPP", lambda: jinns.loss.FisherKPP(Tmax=2.0), rng.choice([1, 2]), {"D": jnp.array(0.5), "r": jnp.array(1.5), "g": jnp.array(0.75)}),
-                ("OU_FPENonStatioLoss2D", lambda: jinns.loss.OU_FPENonStatioLoss2D(Tmax=2.0), 2, {"alpha": jnp.array([0.5, 0.75]), "mu": jnp.array([0.25, -0.5]), "sigma": jnp.array([0.5, 1.0])})]:
+                ("OU_FPENonStatioLoss2D", lambda: jinns.loss.OU_FPENonStatioLoss2D(Tmax=2.0), 2, {"alpha": jnp.array([0.5, 0.75]), "mu": jnp.array([0.25, -0.5]), "sigma": jnp.array([0.5, 1.0])}),
+                # correlated noise: a subclass whose square root of the diffusion tensor is lower triangular (not symmetric)
+                ("OU_FPENonStatioLoss2D with a lower-triangular sigma_mat", lambda: correlated_ou()(Tmax=2.0), 2, {"alpha": jnp.array([0.5, 0.75]), "mu": jnp.array([0.25, -0.5]), "sigma": jnp.array([0.5, 1.0])})]:
             s, r = spinn(rng, 1 + dx, 1, "nonstatio_PDE"); tw = make_twin(s, True)
             x = jnp.array([[dy(rng) for _ in range(dx)] for _ in range(B)])
             Ps = Params(nn_params=s.init_params(), eq_params=eqp); Pt = Params(nn_params=tw.init_params(), eq_params=eqp)
